@@ -6,6 +6,7 @@ from .common import pa, pd, np, TYPES, dec_cell, NestedExtensionArray
 
 TYNAMES = ["int64", "double", "string", "bool", "timestamp[ns]"]
 FIELD_NAMES = ["a", "b", "c", "d"]
+SUBSTR_NAMES = ["ab", "a", "b", "a_b"]
 STRS = ["", "a", "b", "ab", "é", "x y", "nan"]
 
 
@@ -32,7 +33,8 @@ def rand_cell(rng, ty, p_null=0.15, p_nan=0.1, p_big=0.0):
 
 def rand_ty(rng, nfields=None, types=None):
     k = nfields if nfields is not None else rng.choice([1, 2, 2, 3, 4])
-    names = FIELD_NAMES[:k]
+    # every fourth type: names that contain one another (a removal / lookup by name must not match by substring)
+    names = (SUBSTR_NAMES if rng.random() < 0.25 else FIELD_NAMES)[:k]
     return [[n, rng.choice(types or TYNAMES)] for n in names]
 
 
